@@ -104,3 +104,45 @@ package qr
 //@   loop 1 invariant !res.model[0] && !res.model[1] && !res.model[2] && res.model[3]
 //@   loop 1 invariant forall t int :: 0 <= t && t < qrCCB(vi, 1) ==> res.model[4 + t] == qrBitOf(len(content), qrCCB(vi, 1), t)
 //@   loop 1 invariant forall g int, t int :: 0 <= g && 3*g < pos && 3*g < len(content) && 0 <= t && t < qrGW(len(content), g) ==> res.model[qrHdr(vi, 1) + 10*g + t] == qrBitOf(qrGV(bytes(content), len(content), g), qrGW(len(content), g), t)
+
+// ---- alphanumeric mode (ISO 18004 7.4.4): mode indicator 0010, character count, pairs of
+// characters as 11 bits (45*first + second), a final single character as 6 bits
+// value of a character in the 45-character set 0-9 A-Z space $ % * + - . / : (else -1)
+//@ define qrAn(c int) int = (48 <= c && c <= 57) ? (c - 48) : ((65 <= c && c <= 90) ? (c - 55) : ((c == 32) ? 36 : ((c == 36) ? 37 : ((c == 37) ? 38 : ((c == 42) ? 39 : ((c == 43) ? 40 : ((c == 45) ? 41 : ((c == 46) ? 42 : ((c == 47) ? 43 : ((c == 58) ? 44 : (0 - 1)))))))))))
+//@ define qrAllAn(s string) bool = forall k int :: 0 <= k && k < len(s) ==> qrAn(s[k]) >= 0
+
+// the producer goroutine: the values of the characters up to and including the first one outside
+// the set, then close
+//@ func stringToAlphaIdx$1
+//@   requires result != nil && result.nsent == 0 && !result.closed && len(content) <= 10000000
+//@   modifies result.sent, result.nsent, result.closed
+//@   ensures result.closed && 0 <= result.nsent && result.nsent <= len(content)
+//@   ensures forall k int :: 0 <= k && k < result.nsent ==> result.sent[k] == qrAn(content[k])
+//@   ensures forall k int :: 0 <= k && k < result.nsent - 1 ==> qrAn(content[k]) >= 0
+//@   ensures result.nsent == len(content) || (result.nsent >= 1 && qrAn(content[result.nsent - 1]) < 0)
+//@   loop 1 invariant 0 <= iterpos() && iterpos() <= len(content) && result.nsent == iterpos() && !result.closed
+//@   loop 1 invariant forall k int :: 0 <= k && k < iterpos() ==> qrAn(content[k]) >= 0 && result.sent[k] == qrAn(content[k])
+
+// value and width of character group g (pairs, a final single character)
+//@ define qrAW(n int, g int) int = (2*g + 2 <= n) ? 11 : 6
+//@ define qrAV(a map[int]int, n int, g int) int = (2*g + 2 <= n) ? (45 * qrAn(a[2*g]) + qrAn(a[2*g+1])) : qrAn(a[2*g])
+//@ define qrAnBits(n int) int = (n / 2) * 11 + ((n % 2 == 1) ? 6 : 0)
+
+//@ func encodeAlphaNumeric
+//@   requires len(content) <= 10000000
+//@   ensures (result2 == nil) == (result0 != nil) && (result2 == nil) == (result1 != nil)
+//@   ensures result2 == nil ==> qrAllAn(content)
+//@   ensures result2 == nil ==> qrRow(result1) && result1.Level == ecl && fresh(result0) && result0.count == qrCap(result1) * 8 && qrHdr(result1, 2) + qrAnBits(len(content)) <= qrCap(result1) * 8
+//@   ensures result2 == nil ==> !result0.model[0] && !result0.model[1] && result0.model[2] && !result0.model[3]
+//@   ensures result2 == nil ==> (forall t int :: 0 <= t && t < qrCCB(result1, 2) ==> result0.model[4 + t] == qrBitOf(len(content), qrCCB(result1, 2), t))
+//@   ensures result2 == nil ==> (forall g int, t int :: 0 <= g && 2*g < len(content) && 0 <= t && t < qrAW(len(content), g) ==> result0.model[qrHdr(result1, 2) + 11*g + t] == qrBitOf(qrAV(bytes(content), len(content), g), qrAW(len(content), g), t))
+//@   loop 1 invariant 0 <= idx && idx <= len(content) / 2 && res != nil && fresh(res) && qrRow(vi) && vi.Level == ecl && qrCap(vi) * 8 >= qrHdr(vi, 2) + qrAnBits(len(content)) && contentLenIsOdd == (len(content) % 2 == 1)
+//@   loop 1 invariant encoder != nil && fresh(encoder) && encoder.closed && encoder.nrecv == 2*idx
+//@   loop 1 invariant 0 <= encoder.nsent && encoder.nsent <= len(content) && (encoder.nsent == len(content) || (encoder.nsent >= 1 && qrAn(content[encoder.nsent - 1]) < 0))
+//@   loop 1 invariant forall k int :: 0 <= k && k < encoder.nsent ==> encoder.sent[k] == qrAn(content[k])
+//@   loop 1 invariant forall k int :: 0 <= k && k < encoder.nsent - 1 ==> qrAn(content[k]) >= 0
+//@   loop 1 invariant forall k int :: 0 <= k && k < 2*idx ==> qrAn(content[k]) >= 0
+//@   loop 1 invariant res.count == qrHdr(vi, 2) + 11 * idx
+//@   loop 1 invariant !res.model[0] && !res.model[1] && res.model[2] && !res.model[3]
+//@   loop 1 invariant forall t int :: 0 <= t && t < qrCCB(vi, 2) ==> res.model[4 + t] == qrBitOf(len(content), qrCCB(vi, 2), t)
+//@   loop 1 invariant forall g int, t int :: 0 <= g && g < idx && 0 <= t && t < 11 ==> res.model[qrHdr(vi, 2) + 11*g + t] == qrBitOf(45 * qrAn(content[2*g]) + qrAn(content[2*g+1]), 11, t)
